@@ -10,10 +10,14 @@ PROPS = {
         "text": "Machine-checked proofs (lia/nia over Z, all inputs) of the range, monotonicity and representability of the default "
                 "back-off, of now < next <= now+period on the grid with the deferred_until case split, and of the expiry rule; the "
                 "model functions are tied to retry_policy.py, _parameters.py, _buckets.py, job.py and the three brokers' wait_until "
-                "helpers by ~50k differential cases per quick run (boundary grid + seeded random).",
-        "note": "Time is integer microseconds; Redis' int(datetime.timestamp()) is modelled as floor(us/10^6), which is exact for "
-                "instants before 2^32 s (year 2106) and not generated beyond; cron schedules are outside the model (croniter absent).",
-        "technique": "Coq proof (lia/nia) over an executable Z model + differential correspondence by vm_compute",
+                "helpers TWICE: by a translator (harness/translate.py regenerates coq/GenSched.v from /repo's source on every run; "
+                "C19_source_is_model_*: each generated definition is proved equal to the model's) and by ~50k differential cases per "
+                "quick run (boundary grid + seeded random).",
+        "note": "Time is integer microseconds; Redis' math.ceil(datetime.timestamp()) is modelled as ceil(us/10^6), which is exact for "
+                "instants before 2^32 s (year 2106) and not generated beyond; cron schedules are outside the model (croniter absent). "
+                "The translator is fail-closed (unknown syntax = broken tie) and trusted for its conventions: datetime.now() = the "
+                "parameter now, timedelta/datetime = integer microseconds, deepcopy = identity, object.__setattr__ = functional update.",
+        "technique": "Coq proof (lia/nia) over an executable Z model + model regenerated from source by a translator (equalities proved) + differential correspondence by vm_compute",
         "design": "DESIGN.md §3 C19",
     },
 }
@@ -227,7 +231,8 @@ PROPS["C09"] = {
     "text": "Theorems over all accepted event sequences of the worker model: value + running tasks + loops holding a slot = "
             "tasks_limit and value >= 0 (limiter_inv), hence never more than tasks_limit processing tasks; every task end releases "
             "exactly one slot and is counted once; consumption pauses iff the limiter is locked and a release hands the slot to the "
-            "first waiting loop at once; while a loop waits every slot is in use (no lost wake-up); PARTIAL liveness: a loop that "
+            "first waiting loop at once; while a loop waits either every slot is in use or a loop that was handed a slot has not resumed yet and passes the "
+            "spare slot on when it does (no lost wake-up, with CPython 3.12's Semaphore.locked() counting granted waiters); PARTIAL liveness: a loop that "
             "has work and is not waiting for a slot always has an enabled step (fairness of the event loop assumed, eventual "
             "execution checked by the oracle). Tie: ~260 real Worker runs per quick run in virtual time (limits 1-5, 1-3 queues, "
             "1-30 jobs, bursts and arrivals at the instants slots free), traces accepted by the model; oracle: running maximum <= "
